@@ -22,6 +22,11 @@ T = {
          "Six character/keyword alphabets (tags+attributes, comments, DOCTYPE, RCDATA/RAWTEXT/script/PLAINTEXT with 8 start-state x last-start-tag configurations, character references in data/RCDATA/three attribute contexts, CDATA allowed/not) are explored breadth-first from the empty prefix and from seed prefixes up to the stated depth, modulo state equivalence. Every reachable (state x next letter) combination inside the bound is executed on the implementation and compared with the reference.",
          "ref/tokenizer.py (about 900 lines, my transcription of the June-2020 WHATWG tokenizer; named references from html.entities.html5, C1 table from the cp1252 codec) is trusted; characters outside the alphabets are assumed to behave like the letter of the same class",
          "6/C02"),
+ "C04": ("model_checking",
+         "explicit-state BFS over markup-token words, differential oracle across six builder configurations (etree root form, etree fullTree, dom x namespaceHTMLElements on/off); state key = suspended dom-parser state (insertion mode, closed-subtree skeleton of live nodes, stacks, pointers, flags, pending table text, tokenizer snapshot) + consistency of the etree builder's shadow child lists; one-step bisimulation check of the key",
+         "For every word of seven themed alphabets (formatting/adoption, tables, select, prologue/head/frameset, foreign content, blocks/lists, text modes) and their union, up to the stated depth modulo state equivalence, in document mode and in fragment mode for 10 containers, the real parser is run with all six builder configurations and the canonical trees (read by direct traversal) must be equal; the etree root form must equal the html subtree of the full tree.",
+         "no reference model: a defect shared by all builders is invisible here (C01 covers that); attribute order is compared as a mapping; letters containing '{' or ':' in names are not in the alphabets",
+         "6/C04"),
  "C13": ("exploration",
          "bounded exhaustive enumeration of token streams: the filter's complete (previous, token, next) decision domain (all streams <=3 over 134 walker tokens) + all streams of length 4-5 over a reduced alphabet, real filter, oracle = independent predicate written from the standard's optional-tags section; parse-equivalence clause over generated conforming trees in C07's space",
          "The filter decides from a 3-token window, so enumerating every stream of length <=3 over an alphabet that contains every omissible element (with/without attributes), look-alike names, foreign elements, void elements, text, whitespace, comments and doctype visits every decision it can make; longer streams over a reduced alphabet would expose state added by a change. Each removed token is checked against ref/optional_tags.py.",
